@@ -22,6 +22,8 @@ def run(ctx):
         dscommon.run_family(ctx, "C02Order", fmt="text", variant={"time_format": "datehour", "row_order": "shuffle", "rng": rng}, limit=150, always_nontrivial=True)
         dscommon.run_family(ctx, "C02Sel", fmt="netcdf", limit=300, always_nontrivial=True)
         dscommon.run_family(ctx, "C02Three", fmt="text", limit=200, always_nontrivial=True)
+        dscommon.run_family(ctx, "C02Close", fmt="text", variant=shuffled, always_nontrivial=True)
+        dscommon.run_family(ctx, "C02Close", fmt="netcdf", always_nontrivial=True)
     else:
         dscommon.run_family(ctx, "C02Order", fmt="text", variant=shuffled, always_nontrivial=True)
         dscommon.run_family(ctx, "C02Order", fmt="netcdf", always_nontrivial=True)
@@ -32,5 +34,7 @@ def run(ctx):
         dscommon.run_family(ctx, "C02Sel", fmt="text", variant=shuffled, always_nontrivial=True)
         dscommon.run_family(ctx, "C02All", fmt="text", variant={"row_order": "reverse"}, always_nontrivial=True)
         dscommon.run_family(ctx, "C02Three", fmt="auto", always_nontrivial=True)
+        dscommon.run_family(ctx, "C02Close", fmt="text", variant=shuffled, always_nontrivial=True)
+        dscommon.run_family(ctx, "C02Close", fmt="netcdf", always_nontrivial=True)
         ctx.exhaustive = True
     par.clean_workdirs()
